@@ -78,7 +78,7 @@ func (e *c16Env) send(j *c16Job) {
 		ctx = c
 		defer cancel()
 	}
-	e.pool.Send(ctx, verif.PoolEvent{Caller: fmt.Sprintf("job%d", j.id), Fn: func(ctx context.Context) error {
+	e.pool.Send(ctx, verif.PoolEvent{Caller: fmt.Sprintf("job%d", j.id%3), Fn: func(ctx context.Context) error {
 		e.running.Add(1)
 		j.runs.Add(1)
 		j.started.Store(e.now())
